@@ -27,6 +27,7 @@ type Failure struct {
 type Result struct {
 	Scenario   string    `json:"scenario"`
 	Bound      int       `json:"bound"`
+	Mode       string    `json:"mode"`
 	Executions int64     `json:"executions"`
 	Points     int64     `json:"points"`
 	Nodes      int64     `json:"nodes"`
@@ -98,6 +99,7 @@ type Job struct {
 	Scenario string
 	Bound    int
 	MaxExecs int64
+	Delay    bool // delay-bounded instead of preemption-bounded
 }
 
 // Explore runs the jobs on up to 16 worker processes.
@@ -106,8 +108,9 @@ func Explore(r *ev.Run, jobs []Job) []Result {
 	ev.Parallel(len(jobs), 16, func(i int) {
 		j := jobs[i]
 		args := []string{"explore", j.Scenario, fmt.Sprint(j.Bound)}
-		if j.MaxExecs > 0 {
-			args = append(args, fmt.Sprint(j.MaxExecs))
+		args = append(args, fmt.Sprint(j.MaxExecs))
+		if j.Delay {
+			args = append(args, "delay")
 		}
 		so, se, err := run(ev.Root, []string{"GOMAXPROCS=2"}, filepath.Join(ev.Root, ".work", "bin", "sched"), args...)
 		if err != nil {
